@@ -86,6 +86,38 @@ PLANS = {
         assumptions=COMMON_ASSUMPTIONS + ["operations are called inside their documented preconditions (out-of-precondition calls belong to C04)"],
         gates=dict(rel=dict(histories_crossing_line_boundary=10, max_len=2000)),
     ),
+    "C12": dict(
+        lanes=dict(quick=[("rel", N), ("dbg", N), ("miri", N)],
+                   thorough=[("rel", N), ("dbg", N), ("asan", N), ("miri", N)]),
+        rule="cases = (10 tree types x element types x lengths 0..5000) each driving iter(), (&t).into_iter() and into_iter() through seeded "
+             "call histories over {next, next_back, len} in four styles (mostly front, mostly back, alternating, random), continuing after "
+             "exhaustion, against a window [front, back) on the input; plus BitVector/BitVectorMut iter/into_iter/ones/zeros, DArray "
+             "iter/ones/zeros and QVector/RSQVector256/512 iter/into_iter (forward histories incl. calls after exhaustion, len() where the "
+             "iterator is ExactSize). Non-trivial iff the sequence has >= 2 elements.",
+        assumptions=COMMON_ASSUMPTIONS,
+        gates=dict(rel=dict(tree_iterators_driven=100, bit_iterators_driven=12, quad_iterators_driven=8)),
+    ),
+    "C13": dict(
+        lanes=dict(quick=[("rel", N), ("dbg", N), ("miri", N)],
+                   thorough=[("rel", N), ("dbg", N), ("miri", N)]),
+        rule="cases = QVectorBuilder histories (new/with_capacity/default; push(any u8), extend(i32), extend(u8), push-to-line-boundary) to "
+             "target lengths around multiples of 128/256, and collect() of arbitrary values (MIN, MAX, negative, > 3) of all 12 primitive "
+             "integer types into QVector and into QVectorBuilder(+extend). Oracle: two least significant bits of the two's-complement value. "
+             "Observed: len, is_empty, get for every index and past the end, iter, (&qv).into_iter, into_iter, builder clone, ==.",
+        assumptions=COMMON_ASSUMPTIONS,
+        gates=dict(rel=dict(integer_types_collected=12, max_len=4096)),
+    ),
+    "C17": dict(
+        lanes=dict(quick=[("rel", N), ("dbg", N), ("miri", N)],
+                   thorough=[("rel", N), ("dbg", N), ("miri", N)]),
+        rule="select_in_word: every byte value at every byte position x 5 backgrounds (zero, ones, random) x every k < 64 (covers all 2048 "
+             "lookup-table entries), all 16-bit patterns in 4 positions, seeded random/sparse/dense/single-bit words x every k; "
+             "select_in_word_u128 likewise (k < 128); popcnt_wide<1..8>; msb for every bit position of 11 integer types; "
+             "stable_partition_of_4/2 for u8..u128 x every shift below the width vs a stable sort; text_remap vs sorted-distinct ranks. "
+             "Oracles are naive bit scans / std stable sort.",
+        assumptions=["oracles: naive bit scan, std::slice::sort_by_key (stable)", "only a sample of the 2^64 / 2^128 words is covered; the lookup table and every bit position / shift are covered exhaustively"],
+        gates=dict(rel=dict(byte_table_positions_covered=8)),
+    ),
 }
 
 
